@@ -30,6 +30,10 @@ Step(L, over, a, b) ==
        ELSE IF ~over THEN [refused |-> TRUE, leg |-> 0, off |-> 0]
             ELSE [refused |-> FALSE, leg |-> Len(L), off |-> a + b - Cum(L, Len(L) - 1)]   \* continue on the last leg
 
+\* however a mission object was made - constructor, TOML-like dictionary, database query result - its great-circle
+\* distance is the length of the ground track between its airports (a schedule's stated distance is not it)
+MissionEntries == {"constructor", "from_toml", "from_query_result"}
+
 VARIABLES c, o, st
 vars == <<c, o, st>>
 Cases == UNION {[legs : {L}, over : BOOLEAN, op : {"location"}, a : -1..(Total(L) + 3), b : {0}] : L \in LegSets}
